@@ -78,6 +78,19 @@ func emitAlts(n int, seed uint64, nmasks int, all bool, emit func(alt)) {
 	emit(alt{"dropfirst", 0, 0})
 }
 
+// safeBase builds a base artefact inside an enumerator: a panic of the library
+// there must not take the test process down (that would be "inconclusive"); it
+// is turned into an error, the enumerator emits the "base" case and the check
+// function reproduces the panic as a violation.
+func safeBase[T any](f func() (T, error)) (v T, err error) {
+	defer func() {
+		if p := recover(); p != nil {
+			err = fmt.Errorf("panic while building the base artefact: %v", p)
+		}
+	}()
+	return f()
+}
+
 // ---------------------------------------------------------------- signatures
 
 type sigBase struct {
@@ -135,7 +148,7 @@ func TestC10_SignatureAlterations(t *testing.T) {
 	}
 	h.Sweep(t, h.P{Name: "sig-alterations"}, func(emit func(sigAltCase)) {
 		for b := 0; b < nb; b++ {
-			base, err := getSigBase(h.Seed, b)
+			base, err := safeBase(func() (*sigBase, error) { return getSigBase(h.Seed, b) })
 			if err != nil {
 				emit(sigAltCase{b, alt{Kind: "base"}, h.Seed}) // the check reports the reason as a violation
 				continue
@@ -464,7 +477,7 @@ func TestC10_CiphertextAlterations(t *testing.T) {
 					vs = []int{1} // 16-byte message: EnType 0 -> 1 keeps the key length
 				}
 				for _, v := range vs {
-					base, err := getCtBase(h.Seed, mode, a, v)
+					base, err := safeBase(func() (*ctBase, error) { return getCtBase(h.Seed, mode, a, v) })
 					if err != nil {
 						emit(ctAltCase{mode, a, v, alt{Kind: "base"}, h.Seed}) // the check reports the reason as a violation
 						continue
